@@ -61,6 +61,16 @@ def cases(tier):
         lengths = {("s", "b"): 2, ("c", "x"): 1, ("y", "b2"): 1, ("b2", "c"): 1, ("c", "d"): 2}       # (b, c) has none
         for opts in ({}, {"optimize_with_greedy": False}):
             yield dict(edges=E, wt="int", opts=opts, cons=[[["s", "b"], ["b", "c"], ["c", "d"]]], cov_len=cov_len, lengths=[[list(e), l] for e, l in lengths.items()])
+    for c in _docs_case():
+        yield c
+
+
+def _docs_case():
+    # the graph of docs/subpath-constraints.md with a length attribute: coverage stays counted in EDGES unless a length coverage is requested
+    E = [["s", "a", 6], ["s", "b", 7], ["a", "b", 2], ["a", "c", 4], ["b", "c", 9], ["c", "d", 6], ["c", "t", 7], ["d", "t", 6]]
+    L = {("a", "c"): 5, ("c", "t"): 5}
+    for opts in ({}, {"optimize_with_greedy": False}):
+        yield dict(edges=E, wt="int", opts=opts, cons=[[["a", "c"], ["c", "t"]]], lengths=[[list(e), L.get(tuple(e[:2]), 1)] for e in E], len_only=True)
 
 
 def check(case):
@@ -68,7 +78,7 @@ def check(case):
     wt = int if case["wt"] == "int" else float
     G = mkgraph(case["edges"])
     flow = {(u, v): f for u, v, f in case["edges"] if f is not None}
-    lengths = {tuple(e): l for e, l in case.get("lengths", [])}
+    lengths = {tuple(e[:2]): l for e, l in case.get("lengths", [])}
     for e, l in lengths.items():
         G[e[0]][e[1]]["len"] = l
     R = [O.route_mult(p) for p in O.routes_dag(G)]
@@ -82,6 +92,8 @@ def check(case):
     kw = {}
     if cov_len is not None:
         kw.update(subpath_constraints_coverage_length=cov_len, length_attr="len")
+    elif case.get("len_only"):
+        kw.update(length_attr="len")
     if cons:
         kw["subpath_constraints"] = cons
     if ign:
